@@ -107,8 +107,8 @@ def make_replay(ctx, kt, locator, name, kind, goal=None, env=None, note=""):
   """-> callable(model) for UnitCtx.prove(replay=...)"""
 
   def _rp(model):
-    path = replay.write_spec(ctx.pid, ctx.unit, name, locator, kt.kernel, kt.args, model, kt.tid, kind, goal=goal, env=env, note=note)
-    return replay.run_spec(path)
+    path = replay.write_spec(ctx.pid, ctx.unit, name, locator or f"(in-process kernel object {kt.kernel.key})", kt.kernel, kt.args, model, kt.tid, kind, goal=goal, env=env, note=note)
+    return replay.run_spec(path, timeout=900)
 
   return _rp
 
